@@ -3,6 +3,7 @@ import JL.Tie.to_string
 /-! tie: `cat`, as translated from the crate's current source, is the model's function - for every input -/
 namespace JL.Tie
 open JL
+set_option linter.unusedSimpArgs false
 
 /-- the string form `cat` gives each operand -/
 def catPiece (i : Json) : Str := match i with | .str s => s | v => JsOp.toString v
@@ -31,6 +32,7 @@ theorem cat (items : List Json) : Gen.cat items = some (.str (StrOp.cat items)) 
         intro i _
         cases i <;> simp [catPiece, to_string])
       (by intro a p; rfl)]
-  simp [cat_model]
+  -- whatever surrounds the fold (a fast path for a single string operand, say) is settled by the shape of the operand list
+  rcases items with _ | ⟨a, _ | ⟨b, rest⟩⟩ <;> (try cases a) <;> simp [cat_model, catPiece, rs, Rs.index]
 
 end JL.Tie
